@@ -70,6 +70,7 @@ type Task struct {
 	prio      int // PCT priority
 	stallTo   int // not eligible before this step (stall fault)
 	regions   int // nesting of monitored regions (debug)
+	dying     bool
 }
 
 // Violation is a property violation detected by an oracle or by the runtime.
@@ -156,6 +157,7 @@ type Sim struct {
 	deadlock  bool
 	budget    bool
 
+	alive  []string
 	faults map[string]int
 	probes map[string]int
 	log    []string
@@ -270,6 +272,15 @@ func Current() *Sim { return cur }
 const traceCap = 1 << 17
 const pairCap = 1 << 16
 
+// big per-run buffers are process-global and reused: goroutines leaked by finished runs
+// may keep their Sim reachable, and the Sim must therefore stay small.
+var (
+	gPairs  []uint64
+	gTrTask []int32
+	gTrSite []string
+	gTrKind []int8
+)
+
 // Run executes body as task 0 of a fresh simulation inside a synctest bubble.
 func Run(t *testing.T, cfg Config, body func()) (res *Result) {
 	if active() != nil {
@@ -287,14 +298,20 @@ func Run(t *testing.T, cfg Config, body func()) (res *Result) {
 	} else {
 		s.tape = NewTape(cfg.Seed, cfg.Run)
 	}
-	s.tasks = make([]*Task, 0, 16384)
+	s.tasks = make([]*Task, 0, 4096)
 	s.faults = map[string]int{}
 	s.probes = map[string]int{}
 	s.regionOwner = map[string]int{}
-	s.pairs = make([]uint64, pairCap)
-	s.trTask = make([]int32, traceCap)
-	s.trSite = make([]string, traceCap)
-	s.trKind = make([]int8, traceCap)
+	if gPairs == nil {
+		gPairs = make([]uint64, pairCap)
+		gTrTask = make([]int32, traceCap)
+		gTrSite = make([]string, traceCap)
+		gTrKind = make([]int8, traceCap)
+	}
+	for i := range gPairs {
+		gPairs[i] = 0
+	}
+	s.pairs, s.trTask, s.trSite, s.trKind = gPairs, gTrTask, gTrSite, gTrKind
 	s.lastTask = -1
 	s.lastPick = -1
 	s.schedHash = 14695981039346656037
@@ -339,9 +356,11 @@ func Run(t *testing.T, cfg Config, body func()) (res *Result) {
 			})
 			s.loop()
 			s.over = true
+			s.census()
+			s.killParked()
 			setCur(nil)
-			// Tasks still parked stay blocked for ever on their gates; the bubble ends
-			// with the recoverable "blocked goroutines remain" panic.
+			// Tasks blocked for ever on application channels are abandoned; the bubble
+			// then ends with the recoverable "blocked goroutines remain" panic.
 		})
 	}()
 	setCur(nil)
@@ -355,21 +374,52 @@ func Run(t *testing.T, cfg Config, body func()) (res *Result) {
 	}
 	res.SimTime = s.simTime
 	res.PairSet = make(map[uint64]struct{}, s.nPairs)
-	for i := 0; i < s.nPairs; i++ {
-		res.PairSet[s.pairs[i]] = struct{}{}
-	}
-	for _, tk := range s.tasks {
-		if tk.state != stDone && !tk.Harness {
-			res.TasksAlive = append(res.TasksAlive, tk.Site)
+	for _, p := range s.pairs {
+		if p != 0 {
+			res.PairSet[p] = struct{}{}
 		}
 	}
+	res.TasksAlive = s.alive
 	if cfg.KeepTrace {
 		res.Trace = s.renderTrace()
 	}
 	return res
 }
 
-var simTimeZero time.Time
+// census records which non-harness tasks are alive when the run ends.
+func (s *Sim) census() {
+	for _, tk := range s.tasks {
+		if tk.state != stDone && !tk.Harness {
+			s.alive = append(s.alive, tk.Site)
+		}
+	}
+}
+
+// killParked terminates (runtime.Goexit, deferred calls run) every task parked at a
+// hook, repeatedly, so that finished runs do not leak goroutines and memory. While a
+// task is dying its hooks are pass-throughs and a contended lock blocks it for ever.
+//
+//go:norace
+func (s *Sim) killParked() {
+	raceDisable()
+	defer raceEnable()
+	for round := 0; round < 64; round++ {
+		synctest.Wait()
+		n := 0
+		for _, tk := range s.tasks {
+			if tk.state == stParked {
+				tk.state = stRunning
+				tk.dying = true
+				tk.gate <- struct{}{}
+				n++
+			}
+		}
+		if n == 0 {
+			break
+		}
+	}
+	synctest.Wait()
+}
 
 func (s *Sim) renderTrace() []string {
 	out := make([]string, 0, s.nTr)
@@ -423,10 +473,13 @@ func taskMain(s *Sim, tk *Task, fn func()) {
 	close(tk.started)
 	<-tk.gate
 	raceEnable()
+	defer func() { s.taskExit(tk, recover()) }()
 	if s.over {
+		if tk.dying {
+			return
+		}
 		<-s.never
 	}
-	defer func() { s.taskExit(tk, recover()) }()
 	fn()
 }
 
@@ -716,6 +769,10 @@ func (s *Sim) park(tk *Task, kind int, site string) {
 	}
 	<-tk.gate
 	if s.over {
+		if tk.dying {
+			raceEnable()
+			runtime.Goexit()
+		}
 		<-s.never
 	}
 }
@@ -907,3 +964,36 @@ var _ = runtime.Gosched
 //
 //go:norace
 func (s *Sim) Start() time.Time { return s.start }
+
+// Within runs fn in the calling task and reports a violation if it has not returned
+// after d of simulated time (liveness: "returns within a bounded time").
+func Within(d time.Duration, rule, sig string, fn func()) {
+	s := active()
+	if s == nil {
+		fn()
+		return
+	}
+	done := make(chan struct{})
+	GoHarness("watchdog", func() {
+		tm := time.NewTimer(d)
+		defer tm.Stop()
+		Y("harness:watchdog")
+		select {
+		case <-done:
+			W("harness:watchdog")
+		case <-tm.C:
+			W("harness:watchdog")
+			Note(rule, sig, "operation did not return within %v of simulated time; tasks: %v", d, AliveTaskInfo())
+		}
+	})
+	fn()
+	close(done)
+}
+
+// SleepSim sleeps on the fake clock with scheduling points (for harness files that are
+// not instrumented).
+func SleepSim(d time.Duration) {
+	Y("harness:sleep")
+	time.Sleep(d)
+	W("harness:sleep")
+}
